@@ -99,8 +99,9 @@ def sweep(ctx, pool, configs):
 
 
 def run(ctx):
-    ctx.lean_stage([], ["Verif.Props.C08", "Verif.Props.TokenRules", "Verif.Props.RegenLeaf"])
+    ctx.lean_stage([], ["Verif.Props.C08", "Verif.Props.TokenRules", "Verif.Props.RegenLeaf", "Verif.Props.TokenRules2"])
     import blocks
+    blocks.tokenrules2(ctx)    # mdX_fix_only_style for MD023 MD030 MD037 MD044 MD046 (what may change, by how much); proved counter-examples where the fix destroys text
     blocks.regenleaf(ctx)      # regen_field_local: changing one style field of one leaf token changes only that token's own contribution to the regenerated text
     blocks.tokenrules(ctx)     # mdXXX_fix_only_style: token-level statement of "only style changes" for nine token fixers
     stats_c, samples = F.fix_correspondence(ctx, 40 if ctx.quick() else 600, F.FIX_CORPUS)
